@@ -54,9 +54,74 @@ def find_adapters(F):
     return out
 
 
+def register_roles(ctx, ads):
+    """stable names for the private anchors of the limit adapters (used in finding keys instead of their paths)."""
+    for name, a in ads.items():
+        ctx.role(a.translator, "role:%s-translator" % name)
+        ctx.role(a.update, "role:%s-update" % name)
+        ctx.role(a.poll, "role:%s-poll" % name)
+        ctx.role(a.closure, "role:%s-per-diff-closure" % name)
+
+
 def diff_variants_in(e):
     """VectorDiff variants of aggregates inside an expression."""
     return [x[3] for x in find_all(e, lambda y: y[0] == "agg" and y[1] == "adt" and isinstance(y[2], str) and y[2].endswith("VectorDiff"))]
+
+
+def natural_loops(body):
+    """[(header, blocks)] of the natural loops of the body (back edge u -> h with h dominating u)."""
+    cached = getattr(body, "_loops", None)
+    if cached is not None:
+        return cached
+    loops = {}
+    reach = body.reachable()
+    for u in reach:
+        for h in body.succ[u]:
+            if body.dominates(h, u):
+                blks = loops.setdefault(h, {h})
+                work = [u]
+                while work:
+                    x = work.pop()
+                    if x in blks:
+                        continue
+                    blks.add(x)
+                    work.extend(p for p in body.pred[x] if p in reach)
+    body._loops = sorted(loops.items())
+    return body._loops
+
+
+def loop_group(body, blk):
+    """A push in block `blk` that sits in a `for x in ITER { .. }` loop is one group, like `extend(ITER.map(..))`:
+    returns (block of the into_iter call before the loop, expression of ITER, count expression or None) or None."""
+    inner = None
+    for h, blks in natural_loops(body):
+        if blk in blks and (inner is None or len(blks) < len(inner[1])):
+            inner = (h, blks)
+    if inner is None:
+        return None
+    h, blks = inner
+    for b2 in sorted(blks):
+        t = body.term(b2)
+        if t["k"] == "call" and re.search(r"Iterator>?::next$", t.get("callee") or "") and t["args"] and t["args"][0]["k"] in ("move", "copy"):
+            it = body.expr_of_op(t["args"][0])
+            src = find_all(it, lambda y: y[0] == "call" and ecall_matches(y, r"IntoIterator>?::into_iter$"))
+            if not src or src[0][4] is None:
+                continue
+            pre = src[0][4][0]
+            if pre in blks or not body.dominates(pre, h):
+                continue
+            e = src[0][3][0] if src[0][3] else src[0]
+            cnt = None
+            takes = find_all(e, lambda y: y[0] == "call" and ecall_matches(y, r"Iterator>?::take$"))
+            if takes:
+                cnt = takes[0][3][1]
+            else:
+                rng = find_all(e, lambda y: y[0] == "agg" and y[1] == "adt" and isinstance(y[2], str) and re.search(r"ops::Range(Inclusive)?$", y[2]))
+                if rng and len(rng[0][5]) == 2:
+                    lo, hi = rng[0][5]
+                    cnt = hi if (strip(lo)[0] == "const" and strip(lo)[3] == 0) else ("bin", "Sub", hi, lo)
+            return pre, e, cnt
+    return None
 
 
 def emits(body, blocks=None):
@@ -68,7 +133,13 @@ def emits(body, blocks=None):
             e = body.expr_of_op(t["args"][1])
             vs = diff_variants_in(e)
             if vs or "VectorDiff" in body.locals[t["args"][1]["place"]["l"]]["ty"] if t["args"][1]["k"] in ("move", "copy") else vs:
-                out.append((blk, "push", vs, e, None))
+                lg = loop_group(body, blk) if vs else None
+                if lg is not None:
+                    # `for x in ITER { res.push(D) }` == `res.extend(ITER.map(|x| D))`: one group, attributed to the loop's entry
+                    pre, it, cnt = lg
+                    out.append((pre, "extend", vs, ("call", "loop-group", None, (it, e), None, ()), cnt))
+                else:
+                    out.append((blk, "push", vs, e, None))
         elif re.search(EXTEND, c) or re.search(EXTEND, (t.get("extra") or {}).get("full") or ""):
             if len(t["args"]) != 2:
                 continue
